@@ -47,12 +47,90 @@ def parse(path):
         cur.append((mnem, ints(ops)))
     return groups
 
+REGS = {"AX", "BX", "CX", "DX", "SI", "DI", "R8", "R10", "R11", "R12", "R13"}
+XREGS = {"X0", "X1", "X2"}
+
+
+def parse_mem(op):
+    """disp(base)(idx*1) | disp(base) | (base)  ->  (disp, base, idx or None)"""
+    m = re.match(r"^(-?\d+)?\((\w+)\)(?:\((\w+)\*1\))?$", op)
+    if not m or m.group(2) not in REGS or (m.group(3) and m.group(3) not in REGS):
+        raise ValueError("operand " + op)
+    return int(m.group(1) or 0), m.group(2), m.group(3)
+
+
+def instr_ast(mnem, ops):
+    """one instruction of the small paths as a term of SC/Model/Asm.lean (ValueError if outside the modelled subset)"""
+    o = [x.strip() for x in ops.split(",")] if ops.strip() else []
+    r = lambda x: "." + x if x in REGS else (_ for _ in ()).throw(ValueError("reg " + x))
+    xr = lambda x: "." + x if x in XREGS else (_ for _ in ()).throw(ValueError("xreg " + x))
+    li = lambda i: str(i) if i >= 0 else "(%d)" % i
+    if mnem in ("TESTQ", "BSFL", "CMPL", "MOVL", "SHLL") and len(o) == 2 and o[0] in REGS:
+        return ".%s %s %s" % (mnem, r(o[0]), r(o[1]))
+    if mnem == "TESTW" and o[0].startswith("$"):
+        return ".TESTW %d %s" % (int(o[0][1:], 0), r(o[1]))
+    if mnem == "SHRL" and o[0].startswith("$"):
+        return ".SHRL %d %s" % (int(o[0][1:], 0), r(o[1]))
+    if mnem == "LEAQ":
+        d, b, i = parse_mem(o[0])
+        if i is not None:
+            raise ValueError("LEAQ with index")
+        return ".LEAQ %s %s %s" % (li(d), r(b), r(o[1]))
+    if mnem == "MOVOU":
+        d, b, i = parse_mem(o[0])
+        return ".MOVOU %s %s %s %s" % (li(d), r(b), "(some %s)" % r(i) if i else "none", xr(o[1]))
+    if mnem in ("POR", "PAND", "PCMPEQB"):
+        return ".%s %s %s" % (mnem, xr(o[0]), xr(o[1]))
+    if mnem == "PMOVMSKB":
+        return ".PMOVMSKB %s %s" % (xr(o[0]), r(o[1]))
+    if mnem == "MOVQ" and o[1].startswith("("):
+        _, b, _ = parse_mem(o[1])
+        if o[0].startswith("$"):
+            return ".MOVQimm %s %s" % (li(int(o[0][1:], 0)), r(b))
+        return ".MOVQst %s %s" % (r(o[0]), r(b))
+    if mnem in ("JEQ", "JZ", "JNZ", "JAE", "JMP") and len(o) == 1 and re.match(r"^\w+$", o[0]):
+        return '.%s "%s"' % (mnem, o[0])
+    if mnem == "RET":
+        return ".RET"
+    raise ValueError("%s %s" % (mnem, ops))
+
+
+def small_prog(path, sym):
+    """the blocks reachable on the `len < 16` path of a search body, as an Asm.Prog literal"""
+    cur_sym, label, blocks, order = "", "", {}, []
+    for raw in open(path, encoding="utf-8"):
+        line = raw.split("//")[0].strip()
+        if not line or line.startswith("#"):
+            continue
+        m = re.match(r"TEXT\s+([^\s(]+)\(SB\)", line)
+        if m:
+            cur_sym = m.group(1).replace("\u00b7", "").replace("<>", "")
+            label = ""
+            continue
+        m = re.match(r"^([A-Za-z_][\w]*):$", line)
+        if m:
+            label = m.group(1)
+            continue
+        if cur_sym != sym or label not in ("small", "endofpage", "failure"):
+            continue
+        parts = line.split(None, 1)
+        if label not in blocks:
+            blocks[label] = []
+            order.append(label)
+        blocks[label].append((parts[0], parts[1] if len(parts) > 1 else ""))
+    rows = []
+    for l in order:
+        rows.append('  ("%s", [%s])' % (l, ", ".join(instr_ast(m, o) for m, o in blocks[l])))
+    return "[\n" + ",\n".join(rows) + "]"
+
+
 def lean_int(i):
     return str(i) if i >= 0 else "(%d)" % i
 
 def main():
     repo, out = sys.argv[1], sys.argv[2]
     w = ["-- GENERATED by /verif/tools/asmfacts.py from the repository working tree. DO NOT EDIT.",
+         "import SC.Model.Asm",
          "namespace Gen.Asm",
          "/-- per (file, TEXT symbol, label): the (mnemonic, integer operands) of its instructions, in source order -/",
          "def shape : List (String × String × String × List (String × List Int)) := ["]
@@ -67,6 +145,18 @@ def main():
             rows.append('  ("%s", "%s", "%s", [%s])' % (os.path.basename(f), sym, label, body))
     w.append(",\n".join(rows))
     w.append("]")
+    # instruction-level programs of the `len < 16` search paths (SC/Model/Asm.lean); an instruction outside the
+    # modelled subset is reported as a translator failure
+    for f, sym in [("internal/bytealg/indexbyte_go122_amd64.s", "indexbytebody"),
+                   ("internal/bytealg/indexbyte_go122_amd64.s", "indexbytebodyCase"),
+                   ("internal/bytealg/index_non_ascii_go122_amd64.s", "indexByteBodyNonASCII")]:
+        try:
+            lit = small_prog(os.path.join(repo, f), sym)
+        except ValueError as e:
+            print("asmfacts: the small path of %s uses an instruction outside the modelled subset: %s" % (sym, e))
+            sys.exit(1)
+        w.append("open _root_.Asm.Instr _root_.Asm.Reg _root_.Asm.XReg in")
+        w.append("def small_%s : _root_.Asm.Prog := %s" % (sym, lit))
     w.append("end Gen.Asm")
     text = "\n".join(w) + "\n"
     if not (os.path.exists(out) and open(out).read() == text):
